@@ -7,6 +7,12 @@ indices) is a z3 integer that the comparisons / clamps of the real code partitio
 the real circuit is compared with a list-of-lists reference model written from the documentation
 (oracles/circuit_model.py), property-level invariants are evaluated independently of the model, and every
 cached query is compared with the same query on a freshly rebuilt circuit and with the model.
+
+keys2.* obligations: the same for operations that carry BOTH a measurement key and a control key (CircuitOperations
+whose body measures one key and holds an operation controlled by another), inserted with every strategy at a symbolic
+position into circuits built from explicit moments / into the middle of circuits (i.e. away from the append fast
+path: Circuit._can_add_op_at, earliest_available_moment, _latest_available_moment, _group_into_moment_compatible),
+next to moments that measure or read the keys involved.
 """
 from __future__ import annotations
 
@@ -70,6 +76,25 @@ def env():
         cirq.X(q[1]).with_classical_controls('m'),
         cirq.Z(q[2]).with_classical_controls('m'),
     ]
+    # ---- operations 8..14: used by the keys2.* obligations only (the trees / selectors of the other
+    # obligations address operations 0..7 explicitly).  8..11 carry BOTH a measurement key and a control key
+    # (cirq.CircuitOperation whose body measures one key and holds an operation controlled by another one).
+    FC = cirq.FrozenCircuit
+    _MENU['ops'] += [
+        cirq.CircuitOperation(FC(cirq.measure(q[1], key='a'), cirq.X(q[1]).with_classical_controls('m'))),  # 8: q1, measures a, reads m
+        cirq.CircuitOperation(FC(cirq.measure(q[2], key='x'), cirq.Z(q[2]).with_classical_controls('y')), measurement_key_map={'x': 'a', 'y': 'm'}),  # 9: q2, measures a, reads m (through a key map)
+        cirq.CircuitOperation(FC(cirq.Z(q[0]).with_classical_controls('a'), cirq.measure(q[0], key='m'))),  # 10: q0, measures m, reads a
+        cirq.CircuitOperation(FC(cirq.X(q[1]).with_classical_controls('a'), cirq.measure(q[1], key='a'))),  # 11: q1, reads a, then measures a
+        cirq.measure(q[0], key='a'),  # 12
+        cirq.Z(q[2]).with_classical_controls('a'),  # 13
+        cirq.CircuitOperation(FC(cirq.measure(q[1], key='a'), cirq.X(q[2]).with_classical_controls('a'))),  # 14: q1,q2, measures a; the read of a is internal -> no control key
+    ]
+    # keys of every menu operation as DECLARED here (measured, read); the keys2 bodies check that the per-operation
+    # accessors used by the reference model (cirq.measurement_key_objs / cirq.control_keys) report exactly these
+    _MENU['keys'] = {
+        0: ('', ''), 1: ('', ''), 2: ('', ''), 3: ('', ''), 4: ('m', ''), 5: ('m', ''), 6: ('', 'm'), 7: ('', 'm'),
+        8: ('a', 'm'), 9: ('a', 'm'), 10: ('m', 'a'), 11: ('a', 'a'), 12: ('a', ''), 13: ('', 'a'), 14: ('a', ''),
+    }
     _MENU['strategy'] = {
         EARLIEST: cirq.InsertStrategy.EARLIEST,
         NEW: cirq.InsertStrategy.NEW,
@@ -147,7 +172,7 @@ def flat_ops(items):
 def build_base(st, b):
     import cirq
 
-    mode, content = BASES[b]
+    mode, content = BASES[b] if isinstance(b, int) else b  # a (mode, content) pair may be given directly
     if mode == 'moments':
         items = st.tree(content)
         st.c = cirq.Circuit(real_tree(items))
@@ -304,10 +329,11 @@ EXC = (IndexError, ValueError, TypeError)
 class Menu:
     """lv 0 = minimal, 1 = small, 2 = medium, 3 = full (given trees)"""
 
-    def __init__(self, lv, trees=None, strategies=None):
+    def __init__(self, lv, trees=None, strategies=None, batch=None):
         self.lv = lv
         self.trees = trees if trees is not None else [[[0]], [[0], [4, 6]], TREES_HIST][min(lv, 2)]
         self.strategies = strategies
+        self.batch = batch  # optional pair of tree menus for a batch_insert with two insertions
 
     def ops_trees(self):
         return OPS_ONLY(self.trees)
@@ -403,6 +429,22 @@ def call_insert_into_range(cx, st, s, mn):
         after = [list(mo.operations) for mo in st.c.moments]
         k0 = int(start)
         bad = CM.order_invariants(before, after, items, [k0] * len(items), list(range(len(items))), qubits_only=True, exempt_after=True)
+        # operations that do not fit into the range are documented to be inserted at `end` (EARLIEST): for those the
+        # key dependencies count as well (the inline part looks at qubits only).  Which operations overflow follows
+        # from the documented inline rule, replayed here on plain lists.
+        k1 = int(end)
+        cur = [list(mo) for mo in before]
+        i, n = k0, 0
+        while n < len(items):
+            while i < k1 and any(CM.conflict(o, items[n], qubits_only=True) for o in cur[i]):
+                i += 1
+            if i >= k1:
+                break
+            cur[i].append(items[n])
+            n += 1
+        over = items[n:]
+        if over:
+            bad += CM.order_invariants(_without(after, over), after, over, [k1] * len(over), list(range(len(over))), exempt_after=True)
         cx.check(not bad, f'{label}: invariant violated: {bad[:2]}')
         pos = CM.positions(after)
         last = max([pos[o][0] for o in items if o in pos], default=-1)
@@ -413,13 +455,13 @@ def call_insert_into_range(cx, st, s, mn):
 def call_batch_insert(cx, st, s, mn):
     if mn.lv >= 3:
         n = 1 + cx.choose(f'{s}.n', 2)
-        menus = [mn.ops_trees()] if n == 1 else [[[0], [4, 6], [2, 3]], [[3], [6], [0, 0]]]
+        menus = [mn.ops_trees()] if n == 1 else (mn.batch or [[[0], [4, 6], [2, 3]], [[3], [6], [0, 0]]])
     elif mn.lv == 2:
         n = 2
         menus = [[[0], [4, 6]], [[3], [6]]]
     else:
         n = 2
-        menus = [[[0]], [[3]]]
+        menus = mn.batch or [[[0]], [[3]]]
     pairs = []
     for j in range(n):
         items = st.tree(menus[j][cx.choose(f'{s}.tree{j}', len(menus[j]))])
@@ -922,6 +964,52 @@ def tagged_body(cx, wrong=False):
         cx.check(same_moments(oc, om), 'with_tags: the original circuit changed')
 
 
+# ------------------------------------------------------------------------------------------------
+# keys2: operations that carry BOTH a measurement key and a control key (menu operations 8..11: CircuitOperations
+# whose body measures one key and holds an operation controlled by another key), inserted away from the append
+# fast path: symbolic position inside circuits built from explicit moments (no placement cache) or from
+# operations (the cache is dropped by the mid-circuit insert), next to moments that measure the key the
+# operation measures / reads or that are controlled by the key it measures.
+# ------------------------------------------------------------------------------------------------
+K_SINGLES = [[8], [9], [10], [11], [14]]
+K_PAIRS = [[8, 4], [4, 8], [8, 12], [12, 8], [8, 13], [13, 8], [8, 10], [10, 8], [8, 9], [8, 7], [11, 13], [12, 11], [10, 9], [6, 10]]
+K_TRIPLES = [[4, 8, 13], [13, 8, 4], [10, 8, 10], [8, 0, 9]]
+K_MOMENT = [[(8, 4)], [(10,), 8], [8, (13,)], [(8, 12), 9]]
+K_NEIGH = [[4], [5], [6], [7], [12], [13]]  # plain key operations inserted next to both-key operations already present
+K_BATCH = [[[8], [10], [4, 8]], [[9], [13], [12]]]  # tree menus of a batch_insert with two insertions
+
+K_BASES = [
+    ('moments', [(4,), (), (12,), (13,), (7,)]),  # measure m | - | measure a | reader of a | reader of m
+    ('moments', [(13,), (5,), (), (10,)]),  # reader of a | measure m | - | (measures m, reads a)
+    ('ops', [4, 8, 12, 7]),  # EARLIEST constructor: [measure m] [(measures a, reads m), reader of m] [measure a]
+    ('moments', [(8, 5), (11,), (0, 13)]),  # both-key operations sharing moments with other key operations
+]
+
+
+def k_trees(b):
+    trees = K_SINGLES + K_PAIRS + K_TRIPLES + K_MOMENT
+    if b > 0:  # the base circuit holds both-key operations
+        trees = trees + K_NEIGH
+    return trees
+
+
+def keys2_body(b, calls, menus):
+    inner = history_body([K_BASES[b]], calls, menus)
+
+    def body(cx, wrong=False):
+        import cirq
+
+        E = env()
+        ks = lambda keys: frozenset(str(k) for k in keys)
+        for i, (mk, ck) in E['keys'].items():
+            op = E['ops'][i].with_tags('#0')
+            ok = ks(cirq.measurement_key_objs(op)) == frozenset(mk.split()) and ks(cirq.control_keys(op)) == frozenset(ck.split())
+            cx.check(ok, f'menu operation {i}: measurement / control keys differ from the declared ones')
+        inner(cx, wrong)
+
+    return body
+
+
 def obligations(tier):
     quick = tier == 'quick'
     obs = []
@@ -982,6 +1070,37 @@ def obligations(tier):
         for seq in itertools.product(KINDS3, repeat=3):
             add('hist3.' + '.'.join(seq), history_body([1], list(seq), [Menu(0)] * 3), f'history {seq} from base circuit 1 (minimal menus)', weight=4)
 
+    # ---- keys2: operations with both a measurement key and a control key, off the append fast path --------
+    kb = [0, 1, 2, 3]
+    for b in kb:
+        trees = k_trees(b)
+        for strat in CM.STRATEGIES:
+            add(
+                f'keys2.insert.{strat}.kbase{b}',
+                keys2_body(b, ['insert'], [Menu(3, trees, [strat])]),
+                f'insert(unbounded symbolic index, tree holding operations with a measurement key AND a control key, {strat}) into key-conflict base circuit {b}',
+                weight=5,
+            )
+        add(f'keys2.append.kbase{b}', keys2_body(b, ['append'], [Menu(3, trees)]), f'append(tree holding both-key operations, every strategy) to key-conflict base circuit {b} (placement cache alive only on base 2)', weight=3)
+        add(f'keys2.insert_into_range.kbase{b}', keys2_body(b, ['insert_into_range'], [Menu(3, trees)]), f'insert_into_range(both-key operations, symbolic start / end) on key-conflict base circuit {b}', weight=5)
+        add(f'keys2.batch_insert.kbase{b}', keys2_body(b, ['batch_insert'], [Menu(3, trees, batch=K_BATCH)]), f'batch_insert of one / two groups of both-key operations at symbolic indices on key-conflict base circuit {b}', weight=8)
+    # two edits in a row (the first one decides whether a placement cache is alive when the second one starts)
+    htrees = [[8], [4, 8]] if quick else [[8], [10], [4, 8]]
+    k_second = Menu(1, [[9], [13, 11]], [EARLIEST, INLINE], batch=[[[9], [13, 11]], [[12]]])
+    for b in ([1, 2] if quick else kb):
+        for strat in (EARLIEST, INLINE) if quick else (EARLIEST, INLINE, LATEST):
+            if quick and b == 2 and strat != EARLIEST:
+                continue
+            for nxt in ('insert', 'batch_insert', 'insert_into_range'):
+                if quick and nxt == ('insert_into_range' if b == 1 else 'batch_insert'):
+                    continue
+                add(
+                    f'keys2.hist.insert[{strat}].{nxt}.kbase{b}',
+                    keys2_body(b, ['insert', nxt], [Menu(3, htrees, [strat]), k_second]),
+                    f'history insert[{strat}] of both-key operations, then {nxt} of both-key operations, symbolic positions, key-conflict base circuit {b}',
+                    weight=6,
+                )
+
     # ---- queries with symbolic indices ---------------------------------------------------------
     add('query.next_prev', query_body(False), 'next/prev_moment_operating_on(qubits, symbolic index, symbolic distance) vs model scan', weight=5)
     # ---- obligations that FAIL on the unchanged tree (pre-existing defects, listed in known_findings.json) ----
@@ -997,7 +1116,9 @@ LEVEL = (
     'clamps/compares it before use, and partitioned by the comparisons the real code performs (index >= 0, clamps to len, k != len placement-cache '
     'guard, range checks).  On every path the real circuit is compared with a list-of-lists model written from the documentation, property-level '
     'invariants are evaluated independently of the model, returned indices are compared as solver terms, and every cached query is compared with a '
-    'freshly rebuilt equal circuit.'
+    'freshly rebuilt equal circuit.  The keys2 obligations repeat this for operations that have both a measurement key and a control key '
+    '(fixed CircuitOperations, 2 keys) inserted by insert (5 strategies) / append / insert_into_range / batch_insert at symbolic positions next to '
+    'moments measuring or reading those keys, on circuits without a live placement cache.'
 )
 
 
@@ -1010,6 +1131,14 @@ def main(tier, seed=0, replay=None, only=None, procs=None):
         'histories': 'construction (all sequences of <=3 / <=4 items, 5 strategies); every base + 1 call with full menus; quick: every ordered pair of the 12 call kinds from base 1 (first call small menus, second call minimal menus); '
         'thorough: every ordered pair from base 1 (medium menus, then minimal) and from base 4 (small, then minimal), and every ordered triple of 6 call kinds (insert, append, batch_insert, setdel, arith, derive) from base 1 with minimal menus',
         'menu_levels': 'minimal: 1 tree (X(q0)), insert strategies EARLIEST/LATEST, 2-3 variants per call kind; small: 2 trees (X(q0); measure(q0,m)+controlled X(q1)), insert strategies EARLIEST/INLINE/LATEST, append all 5; medium: 8 trees, all 5 strategies, all variants; full: the tree menus listed under trees',
+        'keys2': 'operations carrying BOTH a measurement key and a control key: 4 CircuitOperations (q1: measures a / reads m; q2: the same through a measurement_key_map; q0: measures m / reads a; q1: reads a then '
+        'measures a) + a CircuitOperation whose read of its own key is internal + measure(q0,"a") + Z(q2) controlled by "a"; their keys are declared in the harness and compared with the accessors the model uses. '
+        '27 trees (5 singles, 14 ordered pairs with every kind of key neighbour, 4 triples, 4 trees with whole Moments) + 6 single plain key operations on the bases that already hold both-key operations; '
+        '4 key-conflict base circuits (3 from explicit moments incl. an empty moment = no placement cache, 1 from operations = cache dropped by the mid-circuit insert). Calls: insert with each of the 5 strategies '
+        '(index: unbounded z3 integer), append (5 strategies), insert_into_range (start / end unbounded z3 integers; key order claimed for the overflow part only, the inline part is documented as qubit-only), '
+        'batch_insert (1 group from the tree menu or 2 groups from 3x3 trees, indices z3 integers >= 0), all on every base; histories insert[strategy] -> insert / batch_insert / insert_into_range (second call EARLIEST / INLINE) with small menus '
+        '(quick: 6 of them on bases 1, 2; thorough: first insert EARLIEST / INLINE / LATEST x 3 second calls x 4 bases). Same oracle as elsewhere: documented placement model, model-independent order invariants with the full conflict relation '
+        '(shared qubit, same measurement key, measurement key vs control key in either direction), cached queries vs rebuild',
         'call_menu': list(CALLS),
         'unbounded_integers': 'insert index; insert_into_range start/end; batch_insert indices (>= 0); clear_operations_touching indices; insert_at_frontier frontier values; prev_moment_operating_on end index',
         'windowed_integers': '[-(len+2), len+2] (len+1 at the small menu levels; len = current number of moments, i.e. every clamping class of list indexing) for integers that reach a C boundary before any comparison of the real code: '
@@ -1024,7 +1153,8 @@ def main(tier, seed=0, replay=None, only=None, procs=None):
             'order of an inserted operation relative to LATER conflicting operations when several operations are inserted mid-circuit with EARLIEST (documented exception of the property)',
             'negative indices of batch_insert and negative start of insert_at_frontier (not documented)',
             'factorize, with_noise, text diagrams, qasm, json',
-            'circuits with more than 3 qubits, qudits, CircuitOperation contents',
+            'circuits with more than 3 qubits, qudits, CircuitOperation contents (beyond the 5 fixed CircuitOperations of the keys2 menu, which are opaque operations with a key signature here)',
+            'keys2: key conflicts inside the inline part of insert_into_range and in batch_insert_into / insert_at_frontier (documented as qubit-only placement); more than two distinct keys; repetitions / repeat_until / nested key paths of a CircuitOperation',
         ],
     }
     return run_check(PID, tier, 'checks.C05', SHIMS, LEVEL, ASSUMPTIONS, bounds, seed=seed, replay=replay, only=only, procs=procs)
